@@ -1024,6 +1024,11 @@ func memCorpus() []string {
 		"i32 i32 - local.get:0 i64.load:0 i32.wrap_i64 local.get:0 i32.load:4 i32.add local.get:0 i32.load16_u:6 i32.add local.get:0 i32.load8_u:7 i32.add",
 		"i32 i32 - local.get:0 i32.load:4 local.get:0 i32.load:4 i32.add local.get:0 i32.load:0 i32.add local.get:0 i32.load:5 i32.add",
 		"i32,i32 i32 - local.get:0 local.get:1 i32.store:8 local.get:0 local.get:1 i32.store:4 local.get:0 local.get:1 i32.store:c local.get:0 i32.load:8",
+		// a no-op shift feeding an address: the passes alias it away (optValid with aliases)
+		"i32 i32 - local.get:0 i32.const:20 i32.shl i32.load8_u:0",
+		"i32 i32 - local.get:0 i32.const:0 i32.shr_u i32.load:0 local.get:0 i32.const:40 i32.shr_s i32.load:0 i32.add",
+		"i32,i64 i64 - local.get:0 local.get:1 i64.const:40 i64.shl i64.store:0 local.get:0 i64.load:0 i64.const:80 i64.shr_u",
+		"i32 i32 - local.get:0 i32.const:1f i32.shl i32.load8_u:0",
 		// the address local is reassigned between the accesses: a new value id, a new check
 		"i32 i32 - local.get:0 i32.load:8 local.get:0 i32.const:0 i32.add local.tee:0 i32.load:0 i32.add local.get:0 i32.load:4 i32.add",
 		// two different values with equal contents: two checks
